@@ -1566,6 +1566,43 @@ func ruleC12DecidedByEqual(c *Ctx) {
 				}
 			}
 		})
+		// the list may be searched by a predicate (inEnum(values, instance) bool) that answers true at the first
+		// match; the failure exit then hangs on the predicate's answer
+		if h := call.Parent(); !okDep && h != m.E && h.Signature.Results().Len() == 1 && isBoolType(h.Signature.Results().At(0).Type()) {
+			matches := false
+			core.EachInstr(h, func(i ssa.Instruction) {
+				ifi, ok := i.(*ssa.If)
+				if !ok || !(dependsOn(ifi.Cond, []ssa.Value{call}, 6) || condViaFlag(ifi.Cond, call)) {
+					return
+				}
+				for _, sc := range ifi.Block().Succs {
+					if ret, ok := sc.Instrs[len(sc.Instrs)-1].(*ssa.Return); ok && len(ret.Results) == 1 {
+						if k, ok := ret.Results[0].(*ssa.Const); ok && k.Value != nil && k.Value.String() == "true" {
+							matches = true
+						}
+					}
+				}
+			})
+			if matches {
+				for _, site := range c.P.CallIndex().Sites[h] {
+					sv, ok := site.(*ssa.Call)
+					if !ok {
+						continue
+					}
+					core.EachInstr(sv.Parent(), func(i ssa.Instruction) {
+						ifi, ok := i.(*ssa.If)
+						if !ok || !(dependsOn(ifi.Cond, []ssa.Value{sv}, 6) || condViaFlag(ifi.Cond, sv)) {
+							return
+						}
+						for _, sc := range ifi.Block().Succs {
+							if blockReturnsError(sc) {
+								okDep = true
+							}
+						}
+					})
+				}
+			}
+		}
 		c.R.Check(okDep, rule, kw+":failure-depends-on-equality", c.pos(call), "the keyword fails exactly on the equality outcome", "no failure exit of "+kw+" depends on the result of the equality function")
 		// no other comparison decides a match inside the keyword's region
 		var region *ssa.BasicBlock
